@@ -4,7 +4,7 @@ import math
 from hypothesis import strategies as st
 
 from .. import repo, strategies as S
-from ..core import SubCheck, Fail, Discard, metric, target
+from ..core import SubCheck, Fail, Discard, metric, target, is_seq
 from ..oracles import geodesic_exact as G
 
 RULE = ("point pairs with spherical separation <= 178 deg: independent draws, near pairs (1e-8 deg .. 10 deg apart), same "
@@ -48,7 +48,7 @@ def _call(gd, case, ell, swap=False, shift=0.0):
     a = [S.as_kind(v, case.get("num", "float")) for v in a]       # Python ints / numpy float64 where they hold the value
     # the default ellipsoid is GRS80: leave the argument out when that is what the case asks for
     r = gd.vincinv(*a) if (case["ell"] == "grs80" and case.get("defaults")) else gd.vincinv(*a, ell)
-    if not (isinstance(r, tuple) and len(r) == 3):
+    if not is_seq(r, 3):
         raise Fail("vincinv did not return (distance, azimuth1to2, azimuth2to1)", observed=repr(r))
     return r
 
@@ -125,10 +125,13 @@ def check_angle_classes(case):
         raise Discard()
     if _sph_sep(decs[0], decs[1], decs[2], decs[3]) > 178.0:
         raise Discard()
-    a = gd.vincinv(*objs, ell)
-    b = gd.vincinv(*decs, ellipsoid=ell)
-    if tuple(a) != tuple(b):
-        raise Fail("vincinv with angle objects differs from the call with their decimal-degree values", expected=b, observed=a)
+    ra = gd.vincinv(*objs, ell)
+    rb = gd.vincinv(*decs, ellipsoid=ell)
+    if not (is_seq(ra, 3) and is_seq(rb, 3)):
+        raise Fail("vincinv did not return (distance, azimuth1to2, azimuth2to1)", observed=repr(ra))
+    a, invf = S.ellipsoid_params(case["ell"])
+    # the same result within the tolerances the statement itself uses for equivalent calls (1 mm, azimuths to 1 mm at the far end)
+    _compare("passing angle objects instead of their decimal-degree values", rb, ra, a, invf, {"kind": k})
 
 
 def check_swap(case):
